@@ -217,7 +217,11 @@ func c18RPC(ev *vlib.Evidence, idx int) {
 	newHosts := []store.Node{}
 	for i := 0; i < r.Intn(3); i++ {
 		h := vlib.NewIdentity("c18rpcnew", r.Intn(20))
-		newHosts = append(newHosts, store.Node{ID: store.NodeID(h.NodeID), URI: fmt.Sprintf("enode://%s@203.0.113.%d:30303", h.NodeID, 1+r.Intn(200))})
+		addr := fmt.Sprintf("203.0.113.%d:30303", 1+r.Intn(200))
+		if r.Intn(3) == 0 {
+			addr = vlib.Pick(r, "127.0.0.1:30304", "localhost:30305", "[::1]:30306", "[2001:db8::5]:30307", "node.example.org:30308")
+		}
+		newHosts = append(newHosts, store.Node{ID: store.NodeID(h.NodeID), URI: "enode://" + h.NodeID + "@" + addr})
 	}
 	sp := &scriptedPool{}
 	var reported []ethnode.PeerInfo
